@@ -63,6 +63,25 @@ static const uint64_t vf_p10[20] = {1ULL, 10ULL, 100ULL, 1000ULL, 10000ULL, 1000
 #define VF_SUB_OVF(T, a, b) ({ T vf_r_; __builtin_sub_overflow((T)(a), (T)(b), &vf_r_); })
 #endif
 
+/* lemma-based obligations: 64-bit multiplication / division by a non-constant operand and the mathematical specification functions are
+   UNINTERPRETED functions for the verifier; every arithmetic fact about them enters as an instance of a Lean-checked lemma (vf/lemma.py) */
+#if defined(VF_CBMC) && defined(LL2C_UF_ARITH)
+uint64_t __CPROVER_uninterpreted_umul64(uint64_t, uint64_t);
+_Bool __CPROVER_uninterpreted_umulovf64(uint64_t, uint64_t);
+uint64_t __CPROVER_uninterpreted_udiv64(uint64_t, uint64_t);
+uint64_t __CPROVER_uninterpreted_urem64(uint64_t, uint64_t);
+uint64_t __CPROVER_uninterpreted_mulmod(uint64_t, uint64_t, uint64_t);
+uint64_t __CPROVER_uninterpreted_powmod(uint64_t, uint64_t, uint64_t);
+uint64_t __CPROVER_uninterpreted_gcd(uint64_t, uint64_t);
+#define LL2C_UMUL64(x, y) __CPROVER_uninterpreted_umul64((uint64_t)(x), (uint64_t)(y))
+#define LL2C_UMULOVF64(x, y) __CPROVER_uninterpreted_umulovf64((uint64_t)(x), (uint64_t)(y))
+#define LL2C_UDIV64(x, y) __CPROVER_uninterpreted_udiv64((uint64_t)(x), (uint64_t)(y))
+#define LL2C_UREM64(x, y) __CPROVER_uninterpreted_urem64((uint64_t)(x), (uint64_t)(y))
+#define SPEC_mulmod(a, b, n) __CPROVER_uninterpreted_mulmod((uint64_t)(a), (uint64_t)(b), (uint64_t)(n))
+#define SPEC_powmod(a, b, n) __CPROVER_uninterpreted_powmod((uint64_t)(a), (uint64_t)(b), (uint64_t)(n))
+#define SPEC_gcd(a, b) __CPROVER_uninterpreted_gcd((uint64_t)(a), (uint64_t)(b))
+#endif
+
 #ifdef VF_CBMC
 #define ASSUME(c) __CPROVER_assume(c)
 #define CHECK(c, name) __CPROVER_assert((c), "POST:" name)
